@@ -35,6 +35,7 @@ def build(H, tier, seed):
     A.vc_default_naming(H)
     A.vc_cayley(H)
     A.vc_blade2canon(H)
+    A.vc_blade2canon_concrete(H)
     A.vc_bladedict_getitem(H)
     T.table_lemmas(H, tier)
 
